@@ -341,6 +341,8 @@ def run_all(modname, jobs, report, processes=None):
     with ctx.Pool(processes) as pool:
         outs = pool.map(run_job, payload, chunksize=1)
     seen_findings = set()
+    slow = sorted(((round(o["solver_s"], 1), round(o.get("wall_s", 0), 1), o["spec"].get("name"), o["regime"]) for o in outs), reverse=True)[:6]
+    report.extra.setdefault("slowest_windows_solver_wall_s", []).extend(slow)
     for out in outs:
         name = "{0}/{1}".format(out["spec"].get("name"), out["regime"])
         report.count_query("z3-bmc", out["queries"])
